@@ -24,7 +24,11 @@
  *        (chunk j of connection 0, 1, .., K-1, then chunk j+1 ...) and waits after each chunk until that
  *        receiver has consumed it and is waiting for input again, so the interleaving is deterministic.
  *        Then the connections are shut down one after the other.
- *        answer: rc= sig= san= to=<0|1> r0=<hex replies of connection 0> r1=... err=<hex tail>
+ *        RACE (optional last token `A:B`): a forced interleaving of two _error() calls.  The first time
+ *        receiver A is inside _error() -- reply stream opened, about to format the record -- it is parked;
+ *        it continues as soon as receiver B has gone through an _error() of its own and is waiting for
+ *        input again (or when the input is exhausted).
+ *        answer: rc= sig= san= to=<0|1> parked=<0|1> r0=<hex replies of connection 0> r1=... err=<hex tail>
  *
  * The chroot confines every experiment (hostile names such as ../../x) to the per-case jail directory,
  * and makes the jail the root of the model's file system.
@@ -46,8 +50,17 @@
 #include <unistd.h>
 static ssize_t harness_read(int fd, void *buf, size_t n);
 #define read(fd, buf, n) harness_read(fd, buf, n)
+/* two more scheduling points, both inside _error(): fdopen() marks "this thread has just opened its reply
+ * stream", and immediately before errf() evaluates its arguments the thread can be parked (op `multi`, RACE).
+ * Parking a thread between two statements is a legitimate schedule of the unchanged code. */
+static FILE *harness_fdopen(int fd, const char *mode);
+static void harness_sched_point(void);
+#define fdopen(fd, mode) harness_fdopen(fd, mode)
+#define errf(stream, fmt, ap) (harness_sched_point(), (errf)(stream, fmt, ap))
 #include "src/pdsh/pcp_server.c"
 #undef read
+#undef fdopen
+#undef errf
 #undef atime
 #undef mtime
 #undef SCREWUP
@@ -409,6 +422,7 @@ typedef struct {
     int sfd, pfd;              /* server side / feeder side of the socket pair */
     struct pcp_server svr;
     int idle, finished;        /* accessed with __atomic builtins */
+    int in_error, nerrors, parked;
     pthread_t th;
     dyn_t log;                 /* replies */
     char **chunks; size_t *clen; int nchunks;
@@ -427,6 +441,32 @@ static ssize_t harness_read(int fd, void *buf, size_t n)
         __atomic_store_n(&c->idle, 0, __ATOMIC_SEQ_CST);
     }
     return read(fd, buf, n);
+}
+
+static conn_t *race_a = NULL;       /* the receiver to park (NULL: none) */
+static int race_release = 0, race_done = 0;
+
+static FILE *harness_fdopen(int fd, const char *mode)
+{
+    if (self_conn) self_conn->in_error = 1;
+    return fdopen(fd, mode);
+}
+
+static void harness_sched_point(void)
+{
+    conn_t *c = self_conn;
+    int e = errno;
+    if (!c || !c->in_error) return;
+    c->in_error = 0;
+    if (c == race_a && !race_done) {
+        race_done = 1;
+        __atomic_store_n(&c->parked, 1, __ATOMIC_SEQ_CST);
+        while (!__atomic_load_n(&race_release, __ATOMIC_SEQ_CST))
+            usleep(50);
+        __atomic_store_n(&c->parked, 0, __ATOMIC_SEQ_CST);
+    }
+    __atomic_add_fetch(&c->nerrors, 1, __ATOMIC_SEQ_CST);
+    errno = e;
 }
 
 static void *conn_thread(void *arg)
@@ -462,6 +502,8 @@ static int wait_quiet(conn_t *cs, int k, int i, int want_finished, const struct 
         drain_all(cs, k);
         if (__atomic_load_n(&cs[i].finished, __ATOMIC_SEQ_CST))
             return 0;
+        if (!want_finished && __atomic_load_n(&cs[i].parked, __ATOMIC_SEQ_CST))
+            return 0;
         if (!want_finished && __atomic_load_n(&cs[i].idle, __ATOMIC_SEQ_CST)) {
             int pending = 0;
             if (ioctl(cs[i].sfd, FIONREAD, &pending) == 0 && pending == 0
@@ -475,10 +517,11 @@ static int wait_quiet(conn_t *cs, int k, int i, int want_finished, const struct 
 }
 
 static void multi_child(const char *jail, const char *cwd, int p, int y, int um, conn_t *cs, int k, int resfd,
-                        int errfd)
+                        int errfd, int ra, int rb)
 {
     struct timespec t0;
-    int to = 0, maxch = 0;
+    int to = 0, maxch = 0, was_parked = 0, base_b = -1;
+    if (ra >= 0) race_a = &cs[ra];
     dup2(errfd, 2);
     if (chroot(jail) < 0 || chdir(cwd) < 0) {
         dprintf(2, "HARNESS: chroot/chdir failed: %s\n", strerror(errno));
@@ -510,14 +553,30 @@ static void multi_child(const char *jail, const char *cwd, int p, int y, int um,
                 off += (size_t) w;
             }
             if (wait_quiet(cs, k, i, 0, &t0, 8000) < 0) to = 1;
+            if (ra >= 0 && !race_release && __atomic_load_n(&cs[ra].parked, __ATOMIC_SEQ_CST)) {
+                was_parked = 1;
+                if (base_b < 0)
+                    base_b = __atomic_load_n(&cs[rb].nerrors, __ATOMIC_SEQ_CST);
+                else if (i == rb && __atomic_load_n(&cs[rb].nerrors, __ATOMIC_SEQ_CST) > base_b) {
+                    /* B has been through an _error() of its own since A was parked: A continues */
+                    __atomic_store_n(&race_release, 1, __ATOMIC_SEQ_CST);
+                    while (__atomic_load_n(&cs[ra].parked, __ATOMIC_SEQ_CST)) usleep(50);
+                    if (wait_quiet(cs, k, ra, 0, &t0, 8000) < 0) to = 1;
+                }
+            }
         }
+    if (ra >= 0 && !race_release) {
+        __atomic_store_n(&race_release, 1, __ATOMIC_SEQ_CST);
+        while (__atomic_load_n(&cs[ra].parked, __ATOMIC_SEQ_CST)) usleep(50);
+        if (!to && wait_quiet(cs, k, ra, 0, &t0, 8000) < 0) to = 1;
+    }
     for (int i = 0; i < k && !to; i++) {
         shutdown(cs[i].pfd, SHUT_WR);
         if (wait_quiet(cs, k, i, 1, &t0, 8000) < 0) to = 1;
     }
     drain_all(cs, k);
     FILE *res = fdopen(resfd, "w");
-    fprintf(res, "to=%d", to);
+    fprintf(res, "to=%d parked=%d", to, was_parked);
     for (int i = 0; i < k; i++) {
         static const char hxd[] = "0123456789abcdef";
         fprintf(res, " r%d=", i);
@@ -550,13 +609,19 @@ static void op_multi(char *rest)
         for (char *q = strtok(ch, ","); q; q = strtok(NULL, ","))
             cs[i].chunks[cs[i].nchunks] = (char *) unhex(q, &cs[i].clen[cs[i].nchunks]), cs[i].nchunks++;
     }
+    int ra = -1, rb = -1;
+    char *race = tok(&rest);
+    if (race && sscanf(race, "%d:%d", &ra, &rb) == 2) {
+        if (ra < 0 || rb < 0 || ra >= k || rb >= k || ra == rb) { printf("bad-op\n"); return; }
+    } else
+        ra = rb = -1;
     int pres[2], perr[2];
     if (pipe(pres) < 0 || pipe(perr) < 0) { printf("harness-error pipe\n"); return; }
     fflush(stdout);
     pid_t pid = fork();
     if (pid == 0) {
         close(pres[0]); close(perr[0]);
-        multi_child(jail, cwd, atoi(ps), atoi(ys), (int) strtol(ums, NULL, 8), cs, k, pres[1], perr[1]);
+        multi_child(jail, cwd, atoi(ps), atoi(ys), (int) strtol(ums, NULL, 8), cs, k, pres[1], perr[1], ra, rb);
     }
     close(pres[1]); close(perr[1]);
     set_nb(pres[0]); set_nb(perr[0]);
